@@ -1281,7 +1281,7 @@ func (ex *Exec) step(st *State, fr *Frame, instr ssa.Instruction) bool {
 		st.heap[ch.Obj] = &Obj{Val: cs}
 		ex.wake(st)
 	case *ssa.Select:
-		if len(st.threads) > 1 || ex.selectReady(st, in) != 1 {
+		if len(st.threads) > 1 || ex.selectReady(st, in) != 1 || ex.selectHasEnv(st, in) {
 			if len(st.threads) == 1 && ex.selectReady(st, in) == 0 {
 				if in.Blocking {
 					ex.finish(st, "blocked", "select with no ready case", pos)
@@ -2476,6 +2476,16 @@ func (ex *Exec) runInits(st *State, pkg *ssa.Package) {
 // rendezvous: an unbuffered send is possible if some other thread is parked at a receive on that channel.
 // prototype: unbuffered channels are modelled with capacity 1 ("handed over"), so this is never needed.
 func (ex *Exec) rendezvous(st *State, t int, obj int) bool { return false }
+
+func (ex *Exec) selectHasEnv(st *State, in *ssa.Select) bool {
+	for _, s := range in.States {
+		ch := ex.get(st, s.Chan).(ChanV)
+		if ch.Obj != 0 && st.heap[ch.Obj].Val.(ChanState).Env {
+			return true
+		}
+	}
+	return false
+}
 
 // selectReady counts the communication cases of a select that can proceed now.
 func (ex *Exec) selectReady(st *State, in *ssa.Select) int {
